@@ -67,6 +67,13 @@ void hp_hwloc_shmem_topology_write_fits(void)
     __CPROVER_assert((char *)req_ptr[k] >= verif_mapping + R8(sizeof(struct hwloc_shmem_header)), "every block starts after the header");
     __CPROVER_assert((char *)req_ptr[k] + req_size[k] <= verif_mapping + length, "every block ends inside the mapping");
   }
+  if (r == 0) {
+    /* an adopter maps the file read-only: consulting calls on the adopted copy must never have to refresh (write) the lazily
+     * filled distances / memory-attribute caches, so write() has to refresh THE COPY before it releases the mapping */
+    __CPROVER_assert(verif_dist_refresh_after_dup && verif_last_dist_refresh == (hwloc_topology_t)req_ptr[0], "write(): the distances cache of the shared copy is refreshed before the mapping is released");
+    __CPROVER_assert(verif_memattrs_refresh_after_dup && verif_last_memattrs_refresh == (hwloc_topology_t)req_ptr[0], "write(): the memory-attribute cache of the shared copy is refreshed before the mapping is released");
+    __CPROVER_assert(verif_munmap_calls == 1, "write(): the mapping is released exactly once on success");
+  }
   VERIF_CANARY();
 }
 
